@@ -43,6 +43,32 @@ func sortedKeys[K ~uint8 | ~uint16](m map[K]string) []K {
 	return ks
 }
 
+// cursor walks cyclically through all code points of a dictionary, so that over the generated hellos EVERY entry of
+// every table the importer consults (the zero-valued ones included) appears in its list-valued member.
+type cursor[K ~uint8 | ~uint16] struct {
+	all []K
+	pos int
+}
+
+func (cu *cursor[K]) next(n int) []K {
+	var out []K
+	for ; n > 0 && len(cu.all) > 0; n-- {
+		out = append(out, cu.all[cu.pos%len(cu.all)])
+		cu.pos++
+	}
+	return out
+}
+
+var (
+	curSuites = &cursor[uint16]{all: sortedKeys(dicttls.DictCipherSuiteValueIndexed)}
+	curGroups = &cursor[uint16]{all: sortedKeys(dicttls.DictSupportedGroupsValueIndexed)}
+	curSigs   = &cursor[uint16]{all: sortedKeys(dicttls.DictSignatureSchemeValueIndexed)}
+	curComp   = &cursor[uint8]{all: sortedKeys(dicttls.DictCompMethValueIndexed)}
+	curPoints = &cursor[uint8]{all: sortedKeys(dicttls.DictECPointFormatValueIndexed)}
+	curModes  = &cursor[uint8]{all: sortedKeys(dicttls.DictPSKKeyExchangeModeValueIndexed)}
+	curCert   = &cursor[uint16]{all: sortedKeys(dicttls.DictCertificateCompressionAlgorithmValueIndexed)}
+)
+
 // genSpec: a random ClientHello whose lists are drawn from the WHOLE dictionaries (not only the code points
 // utls can negotiate), so over a run every dictionary entry the importer can be asked for is exercised.
 func genSpec(c *vh.Ctx, must uint16) *tls.ClientHelloSpec {
@@ -54,23 +80,27 @@ func genSpec(c *vh.Ctx, must uint16) *tls.ClientHelloSpec {
 	if r.Intn(2) == 0 {
 		spec.CipherSuites = append(spec.CipherSuites, tls.GREASE_PLACEHOLDER)
 	}
-	for k := 2 + r.Intn(12); k > 0; k-- {
+	spec.CipherSuites = append(spec.CipherSuites, curSuites.next(5)...)
+	for k := r.Intn(8); k > 0; k-- {
 		spec.CipherSuites = append(spec.CipherSuites, allSuites[r.Intn(len(allSuites))])
 	}
-	spec.CompressionMethods = []uint8{0}
-	if r.Intn(4) == 0 {
-		spec.CompressionMethods = []uint8{1, 0}
-	}
+	spec.CompressionMethods = curComp.next(1 + r.Intn(len(curComp.all)))
 	curves := []tls.CurveID{}
 	if r.Intn(2) == 0 {
 		curves = append(curves, tls.GREASE_PLACEHOLDER)
 	}
 	curves = append(curves, tls.X25519)
-	for k := r.Intn(6); k > 0; k-- {
+	for _, g := range curGroups.next(2) {
+		curves = append(curves, tls.CurveID(g))
+	}
+	for k := r.Intn(4); k > 0; k-- {
 		curves = append(curves, tls.CurveID(allGroups[r.Intn(len(allGroups))]))
 	}
 	sigs := []tls.SignatureScheme{}
-	for k := 1 + r.Intn(8); k > 0; k-- {
+	for _, x := range curSigs.next(2) {
+		sigs = append(sigs, tls.SignatureScheme(x))
+	}
+	for k := r.Intn(6); k > 0; k-- {
 		sigs = append(sigs, tls.SignatureScheme(allSigs[r.Intn(len(allSigs))]))
 	}
 	ks := []tls.KeyShare{}
@@ -92,7 +122,7 @@ func genSpec(c *vh.Ctx, must uint16) *tls.ClientHelloSpec {
 		&tls.SNIExtension{}, &tls.SupportedCurvesExtension{Curves: curves},
 		&tls.SignatureAlgorithmsExtension{SupportedSignatureAlgorithms: sigs},
 		&tls.KeyShareExtension{KeyShares: ks}, &tls.SupportedVersionsExtension{Versions: vers},
-		&tls.PSKKeyExchangeModesExtension{Modes: []uint8{tls.PskModeDHE}},
+		&tls.PSKKeyExchangeModesExtension{Modes: curModes.next(1 + r.Intn(len(curModes.all)))},
 	}
 	base := map[uint16]bool{0: true, 10: true, 13: true, 51: true, 43: true, 45: true}
 	// every other extension type the JSON format can express: the forced one always, the others with probability 1/3
@@ -128,13 +158,20 @@ func genSpec(c *vh.Ctx, must uint16) *tls.ClientHelloSpec {
 	return spec
 }
 
+var noEmptyLists bool
+
 // genExt builds one extension of the given type with random content, optional parts present or absent.
 // A type the runner has no builder for is emitted with an empty body (and reported), so that a type newly taught to
 // the JSON importer is at least exercised by name.
 func genExt(c *vh.Ctx, id uint16, allSigs []uint16) tls.TLSExtension {
 	r := c.Rng
 	protos := func() []string {
-		return [][]string{nil, {"h2"}, {"h2", "http/1.1"}, {"h3", "h2"}}[r.Intn(4)]
+		// an empty list only rarely: the raw importer rejects an ALPS extension without protocols, so such a hello
+		// cannot be compared at all
+		if !noEmptyLists && r.Intn(12) == 0 {
+			return nil
+		}
+		return [][]string{{"h2"}, {"h2", "http/1.1"}, {"h3", "h2"}}[r.Intn(3)]
 	}
 	sigs := func() []tls.SignatureScheme {
 		var l []tls.SignatureScheme
@@ -147,7 +184,7 @@ func genExt(c *vh.Ctx, id uint16, allSigs []uint16) tls.TLSExtension {
 	case 5:
 		return &tls.StatusRequestExtension{}
 	case 11:
-		return &tls.SupportedPointsExtension{SupportedPoints: [][]byte{{0}, {0, 1, 2}}[r.Intn(2)]}
+		return &tls.SupportedPointsExtension{SupportedPoints: curPoints.next(1 + r.Intn(len(curPoints.all)))}
 	case 16:
 		p := protos()
 		if p == nil {
@@ -166,8 +203,11 @@ func genExt(c *vh.Ctx, id uint16, allSigs []uint16) tls.TLSExtension {
 		return &tls.FakeTokenBindingExtension{MajorVersion: uint8(r.Intn(2)), MinorVersion: uint8(10 + r.Intn(6)),
 			KeyParameters: [][]uint8{nil, {2}, {1, 2}, {0, 1, 2}}[r.Intn(4)]}
 	case 27:
-		algs := [][]tls.CertCompressionAlgo{{tls.CertCompressionBrotli}, {tls.CertCompressionZlib, tls.CertCompressionBrotli, tls.CertCompressionZstd}}
-		return &tls.UtlsCompressCertExtension{Algorithms: algs[r.Intn(2)]}
+		var algs []tls.CertCompressionAlgo
+		for _, a := range curCert.next(1 + r.Intn(len(curCert.all))) {
+			algs = append(algs, tls.CertCompressionAlgo(a))
+		}
+		return &tls.UtlsCompressCertExtension{Algorithms: algs}
 	case 28:
 		return &tls.FakeRecordSizeLimitExtension{Limit: uint16(1 + r.Intn(16384))}
 	case 34:
@@ -229,6 +269,62 @@ func run(c *vh.Ctx) {
 		}
 	}
 	c.Extra["json_types_not_exercised"] = idle
+	// every name of every table the importer consults must have been part of a hello that went through both importers:
+	// a few more hellos made of whatever is still missing (hellos that could not be compared took their entries with them)
+	missingOf := func() (map[string][]string, map[string][]uint64) {
+		names, vals := map[string][]string{}, map[string][]uint64{}
+		for _, t := range sweepTables() {
+			for _, v := range t.vals {
+				if !namesSeen[t.table][t.vi[v]] {
+					names[t.table] = append(names[t.table], t.vi[v])
+					vals[t.table] = append(vals[t.table], v)
+				}
+			}
+		}
+		return names, vals
+	}
+	noEmptyLists = true
+	for round := 0; round < 40; round++ {
+		_, vals := missingOf()
+		delete(vals, "CompMeth") // ApplyPreset never copies the spec's compression methods: every hello offers [null]
+		if len(vals) == 0 {
+			break
+		}
+		refill := func(cu *cursor[uint16], l []uint64) {
+			if len(l) > 0 {
+				cu.all, cu.pos = nil, 0
+				for _, v := range l {
+					cu.all = append(cu.all, uint16(v))
+				}
+			}
+		}
+		refill8 := func(cu *cursor[uint8], l []uint64) {
+			if len(l) > 0 {
+				cu.all, cu.pos = nil, 0
+				for _, v := range l {
+					cu.all = append(cu.all, uint8(v))
+				}
+			}
+		}
+		refill(curSuites, vals["CipherSuite"])
+		refill(curGroups, vals["SupportedGroups"])
+		refill(curSigs, vals["SignatureScheme"])
+		refill(curCert, vals["CertificateCompressionAlgorithm"])
+		refill8(curPoints, vals["ECPointFormat"])
+		refill8(curModes, vals["PSKKeyExchangeMode"])
+		must := uint16(11)
+		if len(vals["CertificateCompressionAlgorithm"]) > 0 {
+			must = 27
+		}
+		spec := genSpec(c, must)
+		if raw, err := build(spec, tls.HelloCustom, c.Rng.Int63()); err == nil {
+			compareImports(c, "generated-rest", raw, false, round)
+		}
+	}
+	names, _ := missingOf()
+	c.Extra["dictionary_names_not_in_any_compared_hello"] = names
+
+	runNameSweep(c)
 
 	// names the dictionaries do not know: the importer must refuse, never guess a code point
 	for _, bad := range []string{"TLS_NOT_A_SUITE", "grease", "", "TLS_AES_128_GCM_SHA256 "} {
